@@ -16,6 +16,7 @@ ANCHORS = {"src/skmatter/preprocessing/_data.py": [
     "StandardFlexibleScaler.__init__", "StandardFlexibleScaler.fit",
     "StandardFlexibleScaler.transform", "StandardFlexibleScaler.inverse_transform"]}
 
+MAX_REPORTS = 8      # replay files written per run (every failing case is still counted)
 TOL = 1e-10          # column-wise relative tolerance of the model/implementation comparison
 FAMILIES = ["gauss", "offset", "mixed_scales", "integer", "const_col", "dup_rows", "near_const"]
 WKINDS = ["none", "none", "uniform", "random", "zeros", "integer"]
@@ -259,6 +260,25 @@ def relational(case, rec):
                 return "scale_ with integer weights differs from scale_ on repeated rows"
             if np.any(np.abs(np.array(r2["TY"]) - rec["TY"]) > 1e-8 * (1 + np.max(np.abs(rec["TY"]), axis=0) + colmax / np.abs(s))):
                 return "transform with integer weights differs from transform fitted on repeated rows"
+    # prior shift (centring on) / prior uniform rescaling (scaling on) of the input
+    Y = np.array(case["Y"], dtype=float)
+    h = sum(int(abs(x) * 1e6) for x in case["X"][0]) % 7
+    if case["with_mean"] and h in (0, 1, 2):
+        c = colmax * np.array([(-1) ** j * (1 + j) for j in range(d)]) * [0.5, 3.0, 40.0][h]
+        c2 = dict(case, X=(X + c).tolist(), Y=(Y + c).tolist())
+        r2 = run_impl(c2)
+        if not r2["raised"]:
+            bound = 1e-8 * (1 + np.max(np.abs(rec["TY"]), axis=0) + (colmax + np.abs(c) + np.max(np.abs(Y), axis=0)) / np.abs(s))
+            if np.any(np.abs(np.array(r2["TY"]) - rec["TY"]) > bound):
+                return "transform changes under a prior shift of the input by %s" % c.tolist()
+    if case["with_std"] and h in (3, 4, 5):
+        a = [-1.0, 0.125, -37.5][h - 3]
+        c2 = dict(case, X=(a * X).tolist(), Y=(a * Y).tolist())
+        r2 = run_impl(c2)
+        if not r2["raised"]:
+            bound = 1e-8 * (1 + np.max(np.abs(rec["TY"]), axis=0) + (colmax + np.max(np.abs(Y), axis=0)) / np.abs(s))
+            if np.any(np.abs(np.array(r2["TY"]) - math.copysign(1.0, a) * np.array(rec["TY"])) > bound):
+                return "transform of data rescaled by %r is not sign(%r) times the original transform" % (a, a)
     # unweighted column-wise mode == sklearn StandardScaler
     if case["w"] is None and case["column_wise"] and case["with_std"] and case["with_mean"]:
         from sklearn.preprocessing import StandardScaler
@@ -401,11 +421,13 @@ def run(ctx):
             stats["standardscaler_compared"] += (c["w"] is None and c["column_wise"] and c["with_std"] and c["with_mean"])
         if msg:
             reported.add(i)
-            C.report_violation(ctx, "C11 fails on the implementation: " + msg,
-                               dict(case=c, observed=r), found_input=True)
+            stats["failing_inputs"] = stats.get("failing_inputs", 0) + 1
+            if len(ctx.violations) < MAX_REPORTS:
+                C.report_violation(ctx, "C11 fails on the implementation: " + msg,
+                                   dict(case=c, observed=r), found_input=True)
     stats["relational_runs"] = stats["integer_weight_cases"] + stats["standardscaler_compared"]
     for i in mismatched:
-        if i in reported:
+        if i in reported or len(ctx.violations) >= MAX_REPORTS:
             continue
         rep = dict(case=cases[i], observed=recs[i], correspondence="sc_case_ok (Model/Scaler.v)",
                    note="model and implementation disagree beyond rtol %g but the direct oracle accepts the output; %s"
